@@ -88,6 +88,20 @@ def gen(rng, tier):
                         "truth": {"proto": "wsgi", "kind": "raise", "version": version, "chunks": chunks, "raise_at": raise_at, "shape": shape,
                                   "tag": tag},
                         "sched": {"seed": rng.randrange(1 << 30)}, "horizon": 30.0}, **extra)
+    # an application that completes "normally" with fewer bytes than the content-length it declared
+    for k in range(20 if tier == "quick" else 400):
+        tag = 800000 + k
+        steps, total, sizes = _http_template(rng, tag, "cl")
+        declared = total + rng.choice([1, 7, 5000])
+        steps[1] = ["send", dict(steps[1][1], headers=[(b"x-tag", b"%d" % tag), (b"content-length", b"%d" % declared)])]
+        script = steps + [["note", "crash-point"]]
+        req = h1.build_request(b"POST", b"/t%d" % tag, [(b"Host", b"h")], body=b"abc", framing="cl")
+        yield {"family": "h1.cl-short", "backends": ["asyncio", "trio"], "config": {"keep_alive_timeout": 5000}, "conn": {},
+               "apps": {"default": [["recv_until_end"], ["respond", 200, [(b"content-length", b"2")], b"ok"]], "by_tag": {str(tag): script}},
+               "client": [["feed", req], ["settle"]],
+               "truth": {"proto": "h1", "framing": "cl", "at": len(steps), "kind": "short-body", "tag": tag, "total": declared,
+                         "progress": (True, total, False), "first": False},
+               "sched": {"seed": rng.randrange(1 << 30)}, "horizon": 100.0}
     n = 0
     reps = 4 if tier == "quick" else 30
     for rep in range(reps):
@@ -180,6 +194,8 @@ def gen(rng, tier):
 def nontrivial(case, obs):
     if obs is None:
         return True
+    if case.get("truth", {}).get("kind") == "short-body":
+        return any(e[3] == "exit" for e in obs.trace.events if e[2] == "app")
     if case.get("truth", {}).get("proto") == "wsgi":
         rec = obs.apps if isinstance(obs.apps, dict) else {}
         return bool(rec.get("calls"))
